@@ -352,10 +352,34 @@ func c04guard(f func()) (p string) {
 	return ""
 }
 
+// c04read reads an index twice: from a reader that fills every Read request
+// (bytes.Reader) and from one that delivers the same bytes in pieces, as the
+// io.Reader contract allows. Both must give the same outcome and, when they
+// succeed, indexes that write to the same bytes; otherwise the result is an
+// error whose text starts with "short-reads:" (which the oracle, expecting the
+// read to succeed, reports).
 func c04read(kind string, b []byte, qstrat string) (c04idx, bool, error) {
+	ix, isnil, err := c04read1(kind, bytes.NewReader(b), qstrat)
+	ix2, isnil2, err2 := c04read1(kind, newDribble(b), qstrat)
+	if (err == nil) != (err2 == nil) || isnil != isnil2 {
+		return nil, false, fmt.Errorf("short-reads: outcome differs: full reads: %v, short reads: %v", err, err2)
+	}
+	if err == nil && ix != nil && ix2 != nil {
+		w1, e1 := ix.write()
+		w2, e2 := ix2.write()
+		if (e1 == nil) != (e2 == nil) || !bytes.Equal(w1, w2) {
+			return nil, false, fmt.Errorf("short-reads: the index read through short reads differs from the one read with full reads")
+		}
+		// write() sorts; read again so that the returned index is in the state a single read leaves it in
+		ix, isnil, err = c04read1(kind, bytes.NewReader(b), qstrat)
+	}
+	return ix, isnil, err
+}
+
+func c04read1(kind string, rd io.Reader, qstrat string) (c04idx, bool, error) {
 	switch kind {
 	case "bai":
-		idx, err := bam.ReadIndex(bytes.NewReader(b))
+		idx, err := bam.ReadIndex(rd)
 		if err != nil || idx == nil {
 			return nil, idx == nil, err
 		}
@@ -377,13 +401,13 @@ func c04read(kind string, b []byte, qstrat string) (c04idx, bool, error) {
 		}
 		return &c04bai{idx: idx, refs: refs}, false, nil
 	case "tabix":
-		idx, err := tabix.ReadFrom(bytes.NewReader(b))
+		idx, err := tabix.ReadFrom(rd)
 		if err != nil || idx == nil {
 			return nil, idx == nil, err
 		}
 		return &c04tbx{idx: idx, names: idx.Names()}, false, nil
 	case "csi":
-		idx, err := csi.ReadFrom(bytes.NewReader(b))
+		idx, err := csi.ReadFrom(rd)
 		if err != nil || idx == nil {
 			return nil, idx == nil, err
 		}
